@@ -325,13 +325,34 @@ def child_reference(plan):
 
 
 def child_concurrent(plan, generate, seed):
+    """The plan's thread set under the scheduler: first round from the plan's start state (cold or
+    warm), then `rounds - 1` more schedules of the same calls in the same process (each with its own
+    switch list `more[i]`).  Every round's outcomes are compared with the sequential reference."""
     from . import fingerprint
     _warm(plan)
     s = Scheduler(plan, generate, seed).run()
-    fp = fingerprint.fingerprint(True)
-    return {'outcomes': {'%d.%d' % k: v for k, v in s.outcomes.items()}, 'fp': fp, 'error': s.error,
-            'steps': s.steps, 'switches': plan['switches'][:s.spos], 'trace': s.trace,
-            'nontrivial_switches': s.nontrivial_switches, 'step_cap': s.step_cap_hit}
+    out = {'outcomes': {'%d.%d' % k: v for k, v in s.outcomes.items()}, 'error': s.error,
+           'steps': s.steps, 'switches': plan['switches'][:s.spos], 'trace': list(s.trace),
+           'nontrivial_switches': s.nontrivial_switches, 'step_cap': s.step_cap_hit, 'more': []}
+    more = plan.setdefault('more', [])
+    for r in range(plan['config'].get('rounds', 1) - 1):
+        if out['error'] or out['step_cap']:
+            break
+        while len(more) <= r:
+            more.append([])
+        sub = dict(plan, switches=more[r], config=dict(plan['config'], first=(plan['config'].get('first', 0) + r + 1)))
+        s2 = Scheduler(sub, generate, seed * 31 + r + 1).run()
+        out['more'].append(sub['switches'][:s2.spos])
+        out['error'] = s2.error
+        out['step_cap'] = s2.step_cap_hit
+        out['steps'] += s2.steps
+        out['nontrivial_switches'] += s2.nontrivial_switches
+        out['trace'].append(('round', r + 1))
+        out['trace'].extend(s2.trace)
+        for k, v in s2.outcomes.items():
+            out['outcomes']['%d.%d#%d' % (k[0], k[1], r + 1)] = v
+    out['fp'] = fingerprint.fingerprint(True)
+    return out
 
 
 def _in_child(fn, *a):
@@ -433,8 +454,9 @@ def make_plan(seed, tier='quick'):
         perm = list(range(len(threads[0])))
         rng.shuffle(perm)                    # the scheduled child runs the calls in another order
     cfg = {'quantum': rng.choice([3, 10, 30, 30, 100, 100, 300, 300, 1000, 3000]),
-           'warm': versions if warm else [], 'first': rng.randrange(nthreads), 'sequential': sequential, 'perm': perm}
-    return {'sim': 'threadsim', 'seed': seed, 'config': cfg, 'threads': threads, 'switches': []}
+           'warm': versions if warm else [], 'first': rng.randrange(nthreads), 'sequential': sequential, 'perm': perm,
+           'rounds': 1 if sequential else rng.choice([1, 2, 3, 4])}
+    return {'sim': 'threadsim', 'seed': seed, 'config': cfg, 'threads': threads, 'switches': [], 'more': []}
 
 
 # ---------------------------------------------------------------------------
@@ -451,6 +473,7 @@ def evaluate(plan, generate, seed):
     r, c = r[1], c[1]
     if generate:
         plan['switches'] = c['switches']
+        plan['more'] = c['more']
     v = None
     if c['step_cap']:
         v = {'clause': 'livelock', 'sig': 'livelock', 'detail': 'an op exceeded the step cap under interleaving'}
@@ -458,15 +481,21 @@ def evaluate(plan, generate, seed):
         return {'violation': None, 'harness_error': c['error'], 'digest': '', 'steps': c['steps'],
                 'nontrivial': False, 'switch_digest': ''}
     if v is None:
-        for key in sorted(r['outcomes']):
-            a, b = r['outcomes'][key], c['outcomes'].get(key)
+        for ckey in sorted(c['outcomes']):
+            key = ckey.split('#')[0]
+            a, b = r['outcomes'].get(key), c['outcomes'][ckey]
             if a != b:
                 t, j = key.split('.')
                 op = plan['threads'][int(t)][int(j)]
                 v = {'clause': 'outcome-differs', 'sig': 'outcome-differs:%s' % op['k'],
-                     'detail': 'op %s %s(%s) %r: sequential reference %s | under this schedule %s'
-                               % (key, op['k'], op['v'], op.get('text', '')[:60], _short(a), _short(b))}
+                     'detail': 'op %s %s(%s) %r: sequential reference %s | under this schedule (round %s) %s'
+                               % (key, op['k'], op['v'], op.get('text', '')[:60], _short(a),
+                                  ckey.partition('#')[2] or '0', _short(b))}
                 break
+        if v is None and not set(r['outcomes']) <= set(c['outcomes']):
+            v = {'clause': 'outcome-differs', 'sig': 'outcome-missing',
+                 'detail': 'calls without an outcome under the schedule: %s'
+                           % sorted(set(r['outcomes']) - set(c['outcomes']))[:5]}
     if v is None:
         for key in sorted(r['outcomes']):
             if r['outcomes'][key] != r['outcomes2'][key]:
@@ -525,6 +554,15 @@ def shrink(plan, sig, budget_runs=150, budget_s=120):
         res = replay_plan(p)
         return res['violation'] is not None and res['violation']['sig'] == sig
 
+    # fewer rounds
+    while best['config'].get('rounds', 1) > 1:
+        cand = copy.deepcopy(best)
+        cand['config']['rounds'] -= 1
+        cand['more'] = cand.get('more', [])[:cand['config']['rounds'] - 1]
+        if test(cand):
+            best = cand
+        else:
+            break
     # drop whole threads
     i = 0
     while i < len(best['threads']) and len(best['threads']) > 1:
@@ -616,6 +654,7 @@ def _worker(args):
         out['seeds'].append(seed)
         out['steps'] += res['steps']
         out['switches'] += res['switches']
+        out['counters']['schedules'] = out['counters'].get('schedules', 0) + plan['config'].get('rounds', 1)
         out['nontrivial_switches'] += res['nontrivial_switches']
         c = out['counters']
         key = 'threads=%d' % len(plan['threads'])
